@@ -124,6 +124,12 @@ SetupMenu ==
           [op |-> "push_clip", path |-> ClipPaths[1]], [op |-> "push_clip", path |-> ClipPaths[2]],
           [op |-> "push_layer", opacity |-> Opacities[1], blend |-> "SrcOver"],
           [op |-> "push_layer", opacity |-> Opacities[2], blend |-> "Xor"]}
+    [] FOCUS = "cross" ->          \* as layerclip; pops may cross (a clip pushed before a layer popped inside it and vice versa)
+         {[op |-> "push_clip_rect", r |-> ClipRects[1]], [op |-> "push_clip_rect", r |-> ClipRects[2]],
+          [op |-> "push_clip", path |-> ClipPaths[1]],
+          [op |-> "push_layer", opacity |-> Opacities[1], blend |-> "SrcOver"],
+          [op |-> "push_layer", opacity |-> Opacities[2], blend |-> "Xor"],
+          [op |-> "push_layer", opacity |-> Opacities[1], blend |-> "Src"]}
     [] FOCUS = "xform" ->
          {Transforms[i] : i \in 1..Len(Transforms)}
          \cup {[op |-> "push_clip_rect", r |-> ClipRects[1]], [op |-> "push_layer", opacity |-> <<1, 2>>, blend |-> "SrcOver"]}
@@ -153,7 +159,18 @@ DoSetup == /\ NSetup < D
                 /\ stk' = IF PushKind(c) = "none" THEN stk ELSE Append(stk, PushKind(c))
                 /\ hs' = (hs * 31 + CallHash(c)) % 1000003
            /\ UNCHANGED nd
-DoPop == /\ NSetup < D /\ stk # <<>> /\ (nd >= 1 \/ FOCUS \in {"clip", "layer", "layerclip"})
+\* FOCUS = "cross": the clip stack and the layer stack are popped independently of each other
+RemoveLast(s, kd) == LET i == CHOOSE j \in 1..Len(s) : s[j] = kd /\ \A m \in (j + 1)..Len(s) : s[m] # kd
+                     IN SubSeq(s, 1, i - 1) \o SubSeq(s, i + 1, Len(s))
+DoPopCross == /\ FOCUS = "cross" /\ NSetup < D
+              /\ \E kd \in {"clip", "layer"} :
+                   /\ \E j \in 1..Len(stk) : stk[j] = kd
+                   /\ stk[Len(stk)] # kd                      \* (the nested pop is DoPop's)
+                   /\ calls' = Append(calls, [op |-> IF kd = "clip" THEN "pop_clip" ELSE "pop_layer"])
+                   /\ stk' = RemoveLast(stk, kd)
+                   /\ hs' = (hs * 31 + (IF kd = "clip" THEN 6 ELSE 7)) % 1000003
+              /\ UNCHANGED nd
+DoPop == /\ NSetup < D /\ stk # <<>> /\ (nd >= 1 \/ FOCUS \in {"clip", "layer", "layerclip", "cross"})
          /\ calls' = Append(calls, [op |-> IF stk[Len(stk)] = "clip" THEN "pop_clip" ELSE "pop_layer"])
          /\ stk' = SubSeq(stk, 1, Len(stk) - 1)
          /\ hs' = (hs * 31 + 5) % 1000003
@@ -164,7 +181,7 @@ DoDraw == /\ nd < DRAWS
                /\ hs' = (hs * 31 + i) % 1000003
           /\ nd' = nd + 1
           /\ UNCHANGED stk
-Next == DoSetup \/ DoPop \/ DoDraw
+Next == DoSetup \/ DoPop \/ DoPopCross \/ DoDraw
 
 RECURSIVE Closing(_)
 Closing(s) == IF s = <<>> THEN <<>>
